@@ -139,11 +139,13 @@ Fixpoint run_to_end (fuel : nat) (c : cache GT) (t : thread) : cache GT * thread
   | S f => if finished t then (c, t) else let '(c', t') := tstep c t in run_to_end f c' t'
   end.
 
-(* an upper bound on the critical sections a thread still has *)
+(* an upper bound on the scheduler grants a thread still needs (fuel for run_to_end) *)
 Definition call_steps (k : call) : nat :=
-  match k with CVerify pairs _ => (2 * length pairs)%nat | _ => 1%nat end.
+  match k with CVerify pairs _ => (2 * length pairs + 2)%nat | _ => 1%nat end.
+Definition cur_steps (v : vstate) : nat :=
+  (2 * length (v_todo v) + match v_pend v with Some _ => 2 | None => 1 end)%nat.
 Definition thread_steps (t : thread) : nat :=
-  (match t_cur t with Some v => 2 * length (v_todo v) + 1 | None => 0 end
+  (match t_cur t with Some v => cur_steps v | None => 0 end
    + fold_right (fun k n => call_steps k + n) 0 (t_calls t))%nat.
 
 Fixpoint drain (c : cache GT) (ts : list thread) : cache GT * list thread :=
@@ -158,4 +160,16 @@ Definition run_par (c : cache GT) (progs : list (list call)) (sched : list nat) 
   drain (fst g) (snd g).
 
 Definition all_finished (ts : list thread) : bool := forallb finished ts.
+
+(* a whole history on one cache: phases of concurrent threads, one after the other *)
+Definition phase : Type := (list (list call) * list nat)%type.
+(* returns the final cache and, per phase, the cache after it and the finished threads *)
+Fixpoint run_history (c : cache GT) (phases : list phase) : cache GT * list (cache GT * list thread) :=
+  match phases with
+  | [] => (c, [])
+  | (progs, sched) :: r =>
+      let '(c1, ts) := run_par c progs sched in
+      let '(c2, rest) := run_history c1 r in
+      (c2, (c1, ts) :: rest)
+  end.
 End Sched.
